@@ -79,7 +79,13 @@ def check(tier):
             N("0", fp="025"), N("1", ex=3), N("25", fp="5", ex=-2), N("1", ex=-3), N("3", fp="14159"), N("2", fp="5", ex=2), N("100", fp="001"),
             N("9", fp="99", ex=1), N("123456789012345678"), N("1513599841355526145"), N("9223372036854775807"), N("1000000000000000000"),
             N("999999999999999999"), N("9223372036854775808"), N("12345678901234567890"), N("4294967296"), N("2147483648"), N("99999999999"),
-            N("1", fp="5", ex=10), N("1", ex=15), N("123456", fp="789")]
+            N("1", fp="5", ex=10), N("1", ex=15), N("123456", fp="789"),
+            # mantissa x power of ten is not the nearest double of the spelling (two roundings): the whole spelling must be read at once
+            N("1", fp="1", ex=2), N("3", ex=-1), N("1", fp="1", ex=-5), N("5", fp="1", ex=1), N("7", ex=-2), N("2", fp="3", ex=-4), N("6", fp="02214076", ex=23), N("1", ex=23), N("4", fp="35", ex=2)]
+    for m_ in ("1.1", "3", "7", "2.3", "5.1", "9.7", "1.9", "6.5", "0.7", "4.35"):
+        for ex_ in (-7, -5, -3, -2, -1, 1, 2, 3, 4, 6, 9, 21, 22, 23):
+            ip_, _, fp_ = m_.partition(".")
+            nums.append(N(ip_, fp=fp_, ex=ex_))
     rnd = random.Random(seed())
     for _ in range(150 if tier == "quick" else 3000):
         ln = rnd.choice([1, 2, 5, 9, 10, 15, 17, 18, 19, 19, 20])
